@@ -48,8 +48,10 @@ func (g *Group) Do(key string, fn func() (any, error)) (v any, err error, shared
 			delete(g.m, key)
 		}()
 		c.val, c.err = fn()
+		// the result exists but has not been handed out yet: the window in which callers still join this
+		// call although what it fetched may be out of date already (a reply in flight)
+		sched.Point("singleflight.result-in-flight")
 	}()
-	sched.Point("singleflight.done")
 	return c.val, c.err, c.shared
 }
 
